@@ -52,6 +52,13 @@ ASSUMPTIONS = [
 ]
 
 
+# Finding C14-F13 (open, reported): a flow whose body runs to its end inside the event that starts it (nothing but
+# set/if/while after the first `user` line on the executed path) is left ACTIVE with a negative head instead of
+# COMPLETED; it swallows the next matching intent and can re-run its `set`s later.  While the finding is open the
+# generated histories stop right after such a step (counted as excluded); set to False once it is fixed.
+F13_OPEN = True
+
+
 def budget(tier):
     return 1500 if tier == "quick" else 25000
 
@@ -141,7 +148,9 @@ class Active:
 
 
 class Sim:
-    def __init__(self, program, fc, results, rt=None, acts=None, loop=None):
+    def __init__(self, program, fc, results, rt=None, acts=None, loop=None, allow_instant_end=False):
+        self.allow_instant_end = allow_instant_end
+        self.excluded = 0
         self.p = program
         self.fc = fc
         self.rt, self.acts, self.loop = rt, acts, loop
@@ -231,7 +240,14 @@ class Sim:
                         self.stack.append(self.cur)
                     self.cur = act
                 elif req is None:
-                    self.labels.add("entered-flow-ends-at-once")
+                    # the flow ends within the event that starts it (only set/if/while statements were executed)
+                    if self.allow_instant_end:
+                        self.labels.add("entered-flow-ends-at-once")
+                    else:
+                        # open finding C14-F13: such a flow is not marked completed; assert this step, then stop
+                        self.labels.add("excluded:entered-flow-ends-at-once")
+                        self.excluded += 1
+                        self.done = True
                 elif self.cur is None:
                     self.cur = act
                 else:
@@ -358,6 +374,7 @@ def strategy(tier):
             "main": _history(),
             "other": _history(),
             "leg2": st.sampled_from([True, True, True, False]),
+            "allow_instant_end": st.just(not F13_OPEN),
         }
     )
 
@@ -394,6 +411,7 @@ def _core_programs():
         "name": "f2",
         "intent": "f2 start",
         "body": [
+            {"t": "set", "var": "x", "expr": 1},
             {"t": "set", "var": "c1", "expr": 0},
             {
                 "t": "while",
@@ -432,8 +450,8 @@ def enumerate_cases(tier):
 # ---------------------------------------------------------------------------------------------
 
 
-def _run_history(program, fc, hist, rt, acts, loop):
-    sim = Sim(program, fc, hist["results"], rt, acts, loop)
+def _run_history(program, fc, hist, rt, acts, loop, allow_instant_end):
+    sim = Sim(program, fc, hist["results"], rt, acts, loop, allow_instant_end)
     for choice in hist["choices"]:
         if sim.done:
             break
@@ -453,8 +471,9 @@ def prop(case):
         rt, acts = build_runtime(src)
         loop = asyncio.new_event_loop()
     try:
-        main = _run_history(program, fc, case["main"], rt, acts, loop)
-        other = _run_history(program, fc, case["other"], rt, acts, loop)
+        allow = bool(case.get("allow_instant_end", False))
+        main = _run_history(program, fc, case["main"], rt, acts, loop, allow)
+        other = _run_history(program, fc, case["other"], rt, acts, loop, allow)
         # purity: every evaluation of the first history again, after the other history went through the same objects
         m = _repo()
         for n, c in main.evals:
@@ -496,5 +515,6 @@ def prop(case):
         "compute_next_steps_calls": len(main.evals) * 2 + len(other.evals) + 3,
         "generate_events_calls": (len(main.calls2) * 2 + len(other.calls2)) if rt is not None else 0,
         "user_steps": sum(1 for e in main.history if e["type"] == "UserIntent"),
+        "histories_cut_by_open_finding_F13": main.excluded + other.excluded,
     }
     return ok(nt=nt, labels=sorted(labels), view=view, counters=counters)
